@@ -198,6 +198,42 @@ CHECKS: dict[str, dict] = {
     },
 }
 
+REAL_STATE = ["ramses_rf.Gateway / ramses_tx.gateway.Engine (pause/resume, get_state, _restore_cached_packets)", "ramses_rf.dispatcher",
+              "entity_base (_MessageDB, _Discovery off, Parent/Child)", "device/*, system/heat.py, system/zones.py (all views)",
+              "ramses_rf.schemas (validators, load_schema)", "Message._expired / Packet lifespans", "PortTransport + PortProtocol (live), "
+              "FileTransport (restore / reload)", "parsers"]
+CHECKS["C13"] = {
+    "specs": [("state", "views", 1600, 60000)],
+    "budget": (150, 1800),
+    "rule": "one run = one history built from the real logs of the corpus (a window of one log; 45 %: spliced with a second system; "
+            "seeded deletion, duplication, neighbour swaps, field mutation inside the library's payload regexes biased to extremes, "
+            "targeted edits: zero/max sync countdowns, sentinels, out-of-range zone indexes, re-zoned devices) delivered live on the fake "
+            "serial port with eavesdropping on/off and max_zones 1..16, the virtual clock following the log or jumping by minutes to days; "
+            "interleaved at seeded points: every public view of the gateway and of every device/system/zone/DHW, get_state(include_expired "
+            "on/off), _restore_cached_packets of an earlier snapshot (plain, twice, damaged cache, cancelled mid-way, with a concurrent "
+            "get_state). Oracle: no view raises; after every get_state/restore the engine is not paused, a probe packet is handled, a probe "
+            "command is written, the sending/discovery flags are unchanged; a fresh 30C9 array from the known controller is reflected in "
+            "its zones at the end. distinct = distinct (base log, splice, config, operation sequence); non-trivial = mutated history",
+    "real": REAL_STATE, "stub": STUB_RF,
+    "assumptions": ["exceptions that only reach the loop's handler from deferred per-device handlers are counted, not judged (the clean "
+                    "corpus already produces some)", "histories are sampled, not enumerated",
+                    "a forward step of the wall clock (host suspend) is used for long ageing; backward steps are not injected"],
+}
+CHECKS["C15"] = {
+    "specs": [("state", "schema", 1600, 60000)],
+    "budget": (150, 1800),
+    "rule": "same histories as C13 (eavesdropping on in 60 %), checked every 16 packets and at seeded points: (a) SCH_GLOBAL_SCHEMAS("
+            "shrink(gwy.schema)) accepts; (b) a fresh Gateway(**that schema) on an empty input reports the same controllers, zones "
+            "(class, sensor, actuators), DHW parts and appliance control; (c) graph walk: zone index < max_zones, zone_by_idx and "
+            "parent<->child links mutual, a device an actuator of one zone only, a device's controller = its parent's controller; (d) a "
+            "device whose parent differs from the one it had at the previous check, with no SystemSchemaInconsistent logged or raised "
+            "in between, is a violation. distinct/non-trivial as C13",
+    "real": REAL_STATE, "stub": STUB_RF,
+    "assumptions": ["zones / controllers about which nothing is known are not compared in (b): shrink() removes them before the library "
+                    "sees them again", "UFH circuit maps are outside the statement's list and are not compared",
+                    "the raw (un-shrunk) schema is only probed, not judged"],
+}
+
 
 def specs_for(prop: str, tier: str) -> list[tuple[str, str, int]]:
     out = []
@@ -272,11 +308,20 @@ MANIFEST_TEXT["C19"] = {
     "text": "Seeded histories through the whole stack against a scripted controller log used as the reference model; "
             "invariants after every step.", "design_ref": "DESIGN.md 7/C19", "technique": _TECH,
     "note": "The controller log is the reference; delivered = what the controller actually put on the air."}
+MANIFEST_TEXT["C13"] = {
+    "text": "Seeded search over packet histories (real logs + mutation) x interleaved view reads, snapshots and restores (incl. cancelled, "
+            "concurrent and damaged-cache restores) on a live gateway; oracle = no view raises, the engine still receives and sends.",
+    "design_ref": "DESIGN.md 7/C13", "technique": _TECH,
+    "note": "Liveness is observed by a probe packet and a probe command after every snapshot/restore, not only by reading the pause flag."}
+MANIFEST_TEXT["C15"] = {
+    "text": "Seeded search over the same histories: the library's validator, a reload into a fresh gateway and a graph walk are the oracles, "
+            "evaluated every 16 packets.", "design_ref": "DESIGN.md 7/C15", "technique": _TECH,
+    "note": "Generated schemas as configuration are covered by feeding every reached schema back; see DESIGN for the part not built."}
 NOT_APPLICABLE = {
     "C03": "pure function of constructor arguments (decode(build(args)) = args): no schedule, clock, fault, history or second "
            "party to simulate; exhaustive/argument-space enumeration is outside this technique (DESIGN.md 8)",
     "C04": "pure scalar codec inverses over finite enumerable domains: no nondeterminism for a simulator to control "
            "(DESIGN.md 8)",
 }
-for _p in ("C13", "C14", "C15", "C16", "C20"):
+for _p in ("C14", "C16", "C20"):
     NOT_APPLICABLE.setdefault(_p, "applicable, but its engine is not built yet in this round (see DESIGN.md 12 build order)")
